@@ -4,7 +4,7 @@ import ComposeVerif.Model.Template
 
 * `scan_succ` / `repl_succ`: one-step unfoldings in terms of `scanK` / `replK`;
 * `fuel_mono_aux`: more fuel never changes a result other than `panic fuel`;
-* `fuel_suff_aux` / `fuel_sufficient`: `2*|s|+1` fuel is enough;
+* `fuel_suff_aux` / `scan_fuel_suff`: `2*|s|+1` fuel is enough;
 * `no_matchGroups_aux`: the re-match inside `repl` never fails on a string produced by the regex.
 -/
 namespace CV.Template
@@ -276,7 +276,7 @@ theorem fuel_suff_aux (env : Env) : ∀ f,
             exact applyOp_ne_panic _ _ _ _ _ hc
       · intro hc; cases hc
 
-theorem fuel_sufficient (env : Env) (s acc : Str) (fe : Option Err) (f : Nat) (h : 2 * s.length + 1 ≤ f) :
+theorem scan_fuel_suff (env : Env) (s acc : Str) (fe : Option Err) (f : Nat) (h : 2 * s.length + 1 ≤ f) :
     scan f env s acc fe ≠ .panic .fuel := (fuel_suff_aux env f).1 s acc fe h
 
 theorem scan_fuel_add (env : Env) (s acc : Str) (fe : Option Err) (f k : Nat) (h : 2 * s.length + 1 ≤ f) :
@@ -284,7 +284,7 @@ theorem scan_fuel_add (env : Env) (s acc : Str) (fe : Option Err) (f k : Nat) (h
   induction k with
   | zero => rfl
   | succ k ih =>
-    rw [← Nat.add_assoc, (fuel_mono_aux env (f+k)).1 s acc fe (by rw [ih]; exact fuel_sufficient env s acc fe f h), ih]
+    rw [← Nat.add_assoc, (fuel_mono_aux env (f+k)).1 s acc fe (by rw [ih]; exact scan_fuel_suff env s acc fe f h), ih]
 
 theorem scan_fuel_eq (env : Env) (s acc : Str) (fe : Option Err) (f g : Nat) (hf : 2 * s.length + 1 ≤ f)
     (hg : 2 * s.length + 1 ≤ g) : scan f env s acc fe = scan g env s acc fe := by
@@ -381,7 +381,7 @@ theorem no_matchGroups_aux (env : Env) : ∀ f,
 
 theorem subst_never_panics_aux (env : Env) (s : Str) (p : PanicSite) : subst env s ≠ .panic p := by
   cases p with
-  | fuel => exact fuel_sufficient env s [] none _ (by unfold fuelFor; omega)
+  | fuel => exact scan_fuel_suff env s [] none _ (by unfold fuelFor; omega)
   | matchGroups => exact (no_matchGroups_aux env _).1 s [] none
 
 end CV.Template
